@@ -176,8 +176,25 @@ class HashDir:
 
 PATH_POOL = ["a.rs", "./a.rs", ".\\a.rs", "src/b.rs", "src\\b.rs", "./src/b.rs", ".\\src\\b.rs", "d", "./d", ".", "./", "./.", "d/e.rs", "h1.rs",
              "./h1.rs", "././h1.rs", ".\\.\\a.rs", "sub/h2.rs", "./sub/h2.rs", "sub\\h2.rs", "", "été.rs", "a.rs/", "x y.rs", "d\\e.rs", "\U0001f600.rs", "nope/none.rs", "..", "../x.rs", ".a.rs",
-             "src//b.rs", "./x/./y.rs", "x\\.\\y.rs", "x/y.rs", "/", "d/", "d/.", "sub//h2.rs", "sub/./h2.rs"]
+             "src//b.rs", "./x/./y.rs", "x\\.\\y.rs", "x/y.rs", "/", "d/", "d/.", "sub//h2.rs", "sub/./h2.rs",
+             # paths differing only in letter case are different paths (and different keys)
+             "A.rs", "src/B.rs", "./src/B.rs", "SRC/b.rs", "D", "d/E.rs",
+             # the replacement character is an ordinary character of a valid name ...
+             "src/\ufffd.rs",
+             # ... and these two are NOT valid UTF-8 (raw bytes 0xff / 0xfe, spelled with Python's surrogateescape
+             # units U+DCFF / U+DCFE): both have the lossy form src/<U+FFFD>.rs, neither has a baseline key (fix D55)
+             "src/\udcff.rs", "src/\udcfe.rs", "./src/\udcff.rs"]
 assert all(stable_path(p) for p in PATH_POOL)
+
+
+def is_utf8(p):
+    """a path string without surrogateescape units, i.e. one that Path::to_str accepts"""
+    return not any(0xD800 <= ord(c) <= 0xDFFF for c in p)
+
+
+def key_of(p):
+    """baseline key of a result path, None for a path that is not valid UTF-8 (baseline_key, fix D55)"""
+    return norm_key(p) if is_utf8(p) else None
 KINDS = ["n"] * 6 + ["c"] * 3 + ["nS"] + ["sF"] * 4 + ["sD"] * 3 + ["sM"] * 2 + ["sP0", "sP1", "sP2", "sP3", "sP4", "sP5", "sP6"]
 STATUSES = ["F"] * 9 + ["G"] * 3 + ["W"] * 3 + ["P"] * 5
 
@@ -205,9 +222,12 @@ def rand_baseline(rng, results=None):
     """keys under any spelling (the harness builds the baseline with set_*, which normalise; the model
     re-keys); never two spellings of one key in one baseline (merge order is the HashMap's)"""
     b, used = {}, set()
-    keys = list(PATH_POOL)
+    keys = [k for k in PATH_POOL if is_utf8(k)]           # a JSON file holds Unicode strings only
     if results and rng.random() < 0.7:
-        keys = [r["path"] for r in results] * 3 + [norm_key(r["path"]) for r in results] + keys
+        rp = [r["path"] for r in results if is_utf8(r["path"])]
+        # the lossy form of a non-UTF-8 result path is a likely key of a file written before fix D55
+        lossy = ["".join(c if is_utf8(c) else "\ufffd" for c in r["path"]) for r in results if not is_utf8(r["path"])]
+        keys = rp * 3 + [norm_key(x) for x in rp] + lossy * 3 + keys
     for _ in range(rng.choice([0, 1, 2, 3, 4, 6])):
         k = rng.choice(keys)
         if norm_key(k) in used:
@@ -251,7 +271,7 @@ def lib_cases(ctx, hd, n):
             out.append({"cmd": "ratchet", "line": "ratchet\t%s\t%s" % (w_results(rs), w_bl(b)), "rs": rs, "bl": b})
         elif r < 0.65:
             b = rand_baseline(rng, rs)
-            ks = [norm_key(rng.choice(list(b) + PATH_POOL)) for _ in range(rng.randint(0, 4))]
+            ks = [norm_key(rng.choice(list(b) + [q for q in PATH_POOL if is_utf8(q)])) for _ in range(rng.randint(0, 4))]
             out.append({"cmd": "tighten", "line": "tighten\t%s\t%s" % (w_bl(b), w_keys(ks)), "bl": b, "ks": ks})
         else:
             m = rng.choice("acsn")
@@ -269,8 +289,14 @@ def exit_spec(rs, wo, wae, rf):
 
 # ------------------------------------------------------------------ the CLI universe
 
-UFILES = ["./a.rs", "./b.rs", "./d1/c.rs", "./d1/d.rs", "./d2/e.rs"]
-UDIRS = {".": ["./a.rs", "./b.rs"], "./d1": ["./d1/c.rs", "./d1/d.rs"], "./d2": ["./d2/e.rs"]}
+# the sixth file differs from ./b.rs in letter case only (the file system of the sandbox is case-sensitive);
+# states written with five characters leave it absent
+UFILES = ["./a.rs", "./b.rs", "./d1/c.rs", "./d1/d.rs", "./d2/e.rs", "./B.rs"]
+UDIRS = {".": ["./a.rs", "./b.rs", "./B.rs"], "./d1": ["./d1/c.rs", "./d1/d.rs"], "./d2": ["./d2/e.rs"]}
+
+
+def full(state):
+    return state.ljust(len(UFILES), "-")
 SIZE = {"u": 3, "w": 9, "o": 12, "O": 15}   # under, warn, over, over with another size
 MAX_LINES = 10
 
@@ -285,7 +311,10 @@ def file_hash(path, n):
 
 
 def config_toml(depth0=False, rg=None, ff_cfg=False, wae_cfg=False, ns=False):
-    t = ['version = "2"', "[scanner]", 'exclude = [".sloc-guard*"]', "[content]", "max_lines = %d" % MAX_LINES,
+    # only the configuration file is excluded (it is a real entry of the root directory); the tool's own state
+    # files (.sloc-guard/, the default baseline file, a temporary file of an interrupted save) are not listed
+    # here: they must not be counted by themselves (fix D53)
+    t = ['version = "2"', "[scanner]", 'exclude = [".sloc-guard.toml"]', "[content]", "max_lines = %d" % MAX_LINES,
          "warn_threshold = 0.8", 'extensions = ["rs"]']
     if not ns:      # ns: no [structure] section, so no directory is counted (structure checks disabled)
         t += ["[structure]", "max_files = 1", "max_dirs = 1"]
@@ -303,7 +332,7 @@ def config_toml(depth0=False, rg=None, ff_cfg=False, wae_cfg=False, ns=False):
 
 
 def apply_state(proj, state):
-    for path, ch in zip(UFILES, state):
+    for path, ch in zip(UFILES, full(state)):
         p = os.path.join(proj, path)
         if ch == "-":
             if os.path.exists(p):
@@ -319,14 +348,14 @@ def apply_state(proj, state):
 
 
 def present_dirs(state):
-    st = dict(zip(UFILES, state))
+    st = dict(zip(UFILES, full(state)))
     return [d for d, fs in UDIRS.items() if d == "." or any(st[f] != "-" for f in fs)]
 
 
 def expected_results(state, depth0=False):
     """Independent evaluator of the tiny universe: the pre-baseline results of a full run
     (content results for present files, then structure results), as a list of dicts."""
-    st = dict(zip(UFILES, state))
+    st = dict(zip(UFILES, full(state)))
     out = []
     for path in UFILES:
         ch = st[path]
@@ -469,6 +498,14 @@ class Project:
         apply_state(self.sb.proj, state)
         self.state = state
 
+    def noise(self):
+        """what earlier runs of the tool leave in a project: the fallback state directory (cache, history) and the
+        temporary file of a save that was killed; none of it is a project entry (fix D53)"""
+        self.sb.write(".sloc-guard/cache.json", "{}")
+        self.sb.write(".sloc-guard/history.json", "{}")
+        self.sb.write("." + BASELINE_FILE + ".tmp.4242", "{")
+        self.probe_cache = {}
+
     def raw(self, fl, files=None, threads=1, root=None):
         self.set_cfg(fl)
         self.spawns += 1
@@ -543,6 +580,11 @@ def is_ff(fl):
     return bool(fl.get("ff") or fl.get("ff_cfg"))
 
 
+def eff_ff(fl):
+    """runner.rs: fail_fast = (--fail-fast || [check] fail_fast) && no --update-baseline (fix D56)"""
+    return is_ff(fl) and not fl.get("u")
+
+
 def model_dirs(rec):
     """the [dirs] argument of check_step: directories the structure block counted plus, for a run that
     scanned directories, the baseline keys whose path no longer exists (EvaluatedPaths::covers)"""
@@ -590,6 +632,9 @@ def replay_history(exe, hist, depth0=False, auto_rerun=True):
             if op["op"] == "edit":
                 pj.edit(op["state"])
                 continue
+            if op["op"] == "noise":
+                pj.noise()
+                continue
             if op["op"] == "respell":
                 # the baseline file as another spelling / an older version wrote it: keys behind ./
                 d = read_disk(pj.sb.proj)
@@ -598,7 +643,9 @@ def replay_history(exe, hist, depth0=False, auto_rerun=True):
                 continue
             if op["op"] == "update":
                 fl = {"b": op["we"], "u": op["mode"]}
-                rec = pj.run(fl)
+                if op.get("ff"):
+                    fl[op["ff"]] = True          # "ff" (flag) or "ff_cfg": an updating run ignores it (fix D56)
+                rec = pj.run(fl, None, op.get("threads", 1))
             else:
                 rec = pj.run(op["flags"], op.get("files"), op.get("threads", 1), op.get("root"))
             rec["op_index"] = i
@@ -641,6 +688,7 @@ CHECK_FLAGS_SMALL = [
 def op_alphabet():
     ops = [{"op": "edit", "state": s} for s in ("oo---", "ou---", "Oo---", "o-oo-", "ooooo", "uu-u-")]
     ops += [{"op": "update", "mode": m, "we": we} for m in "acsn" for we in (False, True)]
+    ops.append({"op": "update", "mode": "a", "we": True, "ff": "ff"})
     ops += [{"op": "check", "flags": fl, "files": files} for fl, files in CHECK_FLAGS_SMALL]
     ops.append({"op": "respell"})
     # runs that scan directories but do not evaluate every directory the baseline names
@@ -655,7 +703,7 @@ def exhaustive_histories(maxlen, start_states=("oo---", "o-oo-")):
     for s0 in start_states:
         for n in range(1, maxlen + 1):
             for seq in itertools.product(alpha, repeat=n):
-                if all(o["op"] in ("edit", "respell") for o in seq):
+                if all(o["op"] in ("edit", "respell", "noise") for o in seq):
                     continue
                 yield [{"op": "edit", "state": s0}] + list(seq)
 
@@ -705,6 +753,8 @@ def rand_files(rng, state):
 def rand_history(rng, maxlen=10):
     n = rng.randint(2, maxlen)
     h = [{"op": "edit", "state": rand_state(rng)}]
+    if rng.random() < 0.4:
+        h.append({"op": "noise"})
     for _ in range(n):
         r = rng.random()
         if r < 0.25:
@@ -713,7 +763,10 @@ def rand_history(rng, maxlen=10):
             i = rng.randrange(len(UFILES))
             h.append({"op": "edit", "state": prev[:i] + rng.choice("-uwoO") + prev[i + 1:]})
         elif r < 0.47:
-            h.append({"op": "update", "mode": rng.choice("aacsn"), "we": rng.random() < 0.5})
+            o = {"op": "update", "mode": rng.choice("aacsn"), "we": rng.random() < 0.5}
+            if rng.random() < 0.3:
+                o["ff"], o["threads"] = rng.choice(["ff", "ff", "ff_cfg"]), rng.choice([1, 1, 4])
+            h.append(o)
         elif r < 0.53:
             h.append({"op": "respell"})
         else:
@@ -750,12 +803,12 @@ BASELINABLE = ("n", "c", "sF", "sD")
 
 
 def failing_keys(rs):
-    return {norm_key(r["path"]) for r in rs if r["status"] == "F"}
+    return {norm_key(r["path"]) for r in rs if r["status"] == "F" and is_utf8(r["path"])}
 
 
 def absent_keys(rec):
     """baseline keys whose path does not exist in the project state (a directory scan sees that)"""
-    st = dict(zip(UFILES, rec["state"]))
+    st = dict(zip(UFILES, full(rec["state"])))
     present = {canon(f) for f in UFILES if st[f] != "-"} | {canon(d) for d in present_dirs(rec["state"])} | {"."}
     return {k for k in (view(rec["disk0"]) or {}) if canon(k) not in present and k != "."}
 
@@ -780,7 +833,7 @@ def oracle_correspondence(rec, fixed):
     if not rec["parsed"]:
         out.append("no JSON output")
         return out
-    if not is_ff(fl):
+    if not eff_ff(fl):
         if rec["files"] is not None and rec["threads"] == 1:
             if [(rkey(r), r["status"]) for r in rec["rp"]] != [(rkey(r), r["status"]) for r in rec["rsel"]]:
                 out.append("--files run: results differ from the listed files in order")
@@ -852,7 +905,7 @@ def oracles_c09(rec, prev, fixed):
                 out.append(("C09", klass, "modes_preserve_other_kind: %s entries %s -> %s under --update-baseline %s" % (other, sorted(a), sorted(b), UM[u])))
         # idempotence: same mode, same state, previous op was that update
         if prev is not None and prev["flags"].get("u") == u and prev["state"] == rec["state"] and prev["op_index"] == rec["op_index"] - 1 \
-                and not is_ff(fl) and not is_ff(prev["flags"]) and prev["files"] is None and rec["files"] is None \
+                and prev["files"] is None and rec["files"] is None and prev.get("root") == rec.get("root") \
                 and not (fl.get("rc") or fl.get("rg")) and prev["exit"] != 2 and not fl.get("ns") and not prev["flags"].get("ns"):
             if (d1 or {}) != (d0 or {}):
                 klass = None
@@ -874,7 +927,7 @@ def oracles_c09(rec, prev, fixed):
                     ent = ("C", r["code"], r.get("hash", "")) if r["kind"] in ("n", "c") else ("S", "f" if r["kind"] == "sF" else "d", r["code"])
                     if (u == "a") or (u == "c" and ent[0] == "C") or (u == "s" and ent[0] == "S"):
                         cur[norm_key(r["path"])] = ent      # the last result for a key wins
-            if not is_ff(fl):
+            if not eff_ff(fl):           # (an updating run is never cut short)
                 for k, ent in cur.items():
                     if d1m.get(k) != ent:
                         out.append(("C09", None, "update_records_current: entry %s is %s after --update-baseline %s, the current violation is %s" % (k, d1m.get(k), UM[u], ent)))
@@ -887,7 +940,7 @@ def oracles_c09(rec, prev, fixed):
             out.append(("C09", None, "history_inv: key %s written without a failing result" % stray[0]))
     # (a) round trip
     if prev is not None and prev["flags"].get("u") == "a" and prev["state"] == rec["state"] and prev["op_index"] == rec["op_index"] - 1 \
-            and fl.get("b") and not u and not is_ff(fl) and rec["files"] is None and prev["files"] is None and not is_ff(prev["flags"]) and prev["exit"] != 2 \
+            and fl.get("b") and not u and not is_ff(fl) and rec["files"] is None and prev["files"] is None and prev["exit"] != 2 \
             and not rec.get("root") and not fl.get("ns") and not prev["flags"].get("ns") and not prev.get("root"):
         notg = [o for o in rec["obs"] if o["kind"] in BASELINABLE and o["status"] == "F"]
         klass = None
